@@ -155,6 +155,42 @@ def mon_c04(case, obs, prefix):
     return bad
 
 
+def srr_must_end(case, obs, prefix):
+    """a Session Report Response with header SEID 0 from the peer a report was sent to, for a request that is still
+    outstanding, ends the session the report was about - whatever cause it carries: afterwards that session is gone and
+    the data plane holds none of its rules.  (Which session a request was about is tracked from the report events.)"""
+    bad = []
+    pending = {}      # (peer, seq) -> UP SEID the outstanding Session Report Request was sent for
+    for i, ev, o, prev, prev_dp, dup in walk(case, obs, prefix):
+        if o.get("fault"):
+            break
+        # a session that ended takes its outstanding reports' meaning with it (its SEID may be issued again)
+        for k in [k for k, (lid_, rid_) in pending.items() if live(prev, lid_) is None or live(prev, lid_)["rid"] != rid_]:
+            del pending[k]
+        if ev["t"] == "report":
+            s0 = live(prev, ev["seid"])
+            for x in o["sends"] or []:
+                if x["type"] == "srreq" and s0 is not None:
+                    pending[(x["dst"], x["seq"])] = (ev["seid"], s0["rid"])
+        elif ev["t"] == "recv" and ev["msg"]["k"] == "srr":
+            k = (ev["peer"], ev["seq"])
+            if tx_entry(prev, key_of(prefix, ev["peer"], ev["seq"])) is not None and k in pending:
+                lid, _rid = pending.pop(k)
+                s = live(prev, lid)
+                twins = [x for x in (prev.get("slots") or []) if x is not None and x["lid"] != lid and s is not None
+                         and x["rid"] == s["rid"] and x["node"] == s["node"]]      # the same peer gave two sessions one SEID: ambiguous
+                # "peer" as the implementation matches it: the address the session's association was set up from (after a
+                # re-keying takeover the node id names another peer than that address: outside this rule)
+                node = [n for n in (prev.get("nodes") or []) if s is not None and n["obj"] == s["node"]]
+                same_addr = bool(node) and node[0]["addr"] == "%s%d:8805" % (prefix, 10 + ev["peer"])
+                if ev["msg"]["hdr"] == 0 and s is not None and not twins and same_addr and _owner_peer(prev, s, prefix) == ev["peer"]:
+                    if live(o["dump"], lid) is not None:
+                        bad.append((i, "peer %d answered the report about session %d with SEID 0: the session is still there" % (ev["peer"], lid)))
+                    elif any(r[0] == lid for r in (o["dp"] or [])):
+                        bad.append((i, "session %d ended by a SEID-0 report response, rules left in the data plane" % lid))
+    return bad
+
+
 def mon_c01(case, obs, prefix):
     bad = []
     under = {}      # ghost: UP SEID -> node id the session is established under (tracked from the requests)
@@ -217,6 +253,8 @@ def mon_c01(case, obs, prefix):
         for lid in list(under):
             if live(d, lid) is None:
                 del under[lid]
+    if not bad:
+        bad += srr_must_end(case, obs, prefix)
     return bad
 
 
@@ -414,6 +452,8 @@ def mon_c05(case, obs, prefix):
         for lid in list(under):
             if live(d, lid) is None:
                 del under[lid]
+    if not bad:
+        bad += srr_must_end(case, obs, prefix)
     return bad
 
 
@@ -1048,6 +1088,39 @@ def directed_c05(rnd):
 def _usa(seid, urr, val):
     return {"t": "report", "seid": seid, "items": [{"usa": {"urr": urr, "trig": 2, "vflags": 0, "cnt": [val, 0, 0, 0, 0, 0], "dur": 0,
                                                        "start": 10, "end": 20}}], "fail": [], "usage": []}
+
+
+def directed_c09(rnd):
+    """a response of another kind (Heartbeat / Association Setup / Session Establishment / Modification Response) from the
+    right peer with the sequence number of an outstanding Session Report Request retires that request: nothing is
+    retransmitted afterwards; the same from the wrong peer changes nothing"""
+    out = []
+    for ty, q0 in ((2, 0), (6, 5), (51, 2 ** 24 - 1), (53, 7)):
+        for wrong in (False, True):
+            out.append({"maxretrans": 2, "txseq0": q0, "events": [
+                _rc(0, 1, {"k": "asr", "nid": {"v": 0}}), _rc(1, 1, {"k": "asr", "nid": {"v": 1}}),
+                _rc(0, 2, {"k": "est", "nid": {"v": 0}, "fseid": {"v": 10}, "ops": {"cFAR": [1]}}),
+                {"t": "report", "seid": 1, "items": [{"dld": {"pdr": 1, "action": 12, "pkt": "aa"}}], "fail": [], "usage": []},
+                {"t": "recv", "peer": 1 if wrong else 0, "seq": q0, "msg": {"k": "otherrsp", "type": ty, "seid": 10}, "fail": [], "usage": []},
+                {"t": "timeout", "tx": True, "peer": 0, "seq": q0, "fail": [], "usage": []},
+                {"t": "timeout", "tx": True, "peer": 0, "seq": q0, "fail": [], "usage": []}]})
+    return out
+
+
+def directed_c04(rnd):
+    """a Modification naming the session's own node id (no takeover), then deletion: the SEID stops resolving and is
+    re-issued to the next establishment"""
+    return [{"maxretrans": 1, "txseq0": 0, "events": [
+        _rc(0, 1, {"k": "asr", "nid": {"v": 0}}),
+        _rc(0, 2, {"k": "est", "nid": {"v": 0}, "fseid": {"v": 10}, "ops": {"cFAR": [1]}}),
+        _rc(0, 3, {"k": "est", "nid": {"v": 0}, "fseid": {"v": 11}, "ops": {"cFAR": [1]}}),
+        _rc(0, 4, {"k": "mod", "seid": 1, "nid": {"v": 0}, "ops": {"cFAR": [2]}}),
+        _rc(0, 5, {"k": "del", "seid": 1}),
+        _rc(0, 6, {"k": "mod", "seid": 1, "nid": {"absent": True}, "ops": {"cFAR": [3]}}),
+        _rc(0, 7, {"k": "del", "seid": 1}),
+        _rc(0, 8, {"k": "est", "nid": {"v": 0}, "fseid": {"v": 12}, "ops": {"cFAR": [1]}}),
+        _rc(0, 9, {"k": "asr", "nid": {"v": 0}}),
+        _rc(0, 10, {"k": "mod", "seid": 2, "nid": {"absent": True}, "ops": {"cFAR": [4]}})]}]
 
 
 def directed_c10(rnd):
